@@ -49,6 +49,7 @@ type PathResult struct {
 	Decisions  int         `json:"decisions"`
 	Steps      int         `json:"steps"`
 	Unknown    int         `json:"unknown,omitempty"`
+	Fast       int         `json:"fast,omitempty"`
 	Funcs      []string    `json:"funcs,omitempty"`
 }
 
@@ -74,11 +75,14 @@ type path struct {
 	steps  int
 	funcs  map[*ssa.Function]bool
 	curFn  *ssa.Function
+	doms   map[*smt.Term]*domain
+	fast   int
 
 	MaxSteps     int
 	MaxDecisions int
 	Known        map[string]bool
 	Params       map[string]int
+	NoFast       bool
 }
 
 // P is the path being executed (one interpreter per process).
@@ -89,6 +93,116 @@ func (p *path) vars() []*smt.Term { return p.ctx.Vars }
 func (p *path) noteFn() {
 	if p.curFn != nil {
 		p.funcs[p.curFn] = true
+	}
+}
+
+// ---------------------------------------------------------------------------
+// Independent-variable fast path. For every input variable with a small
+// domain the path keeps the exact set of values allowed by the constraints
+// that mention ONLY that variable. As long as no constraint relates the
+// variable to another one (multi == false) the path condition is a product,
+// so feasibility of a condition over that single variable is decided by
+// evaluating it on the domain, and a model is obtained by patching the current
+// one. Everything else goes to the solver.
+
+type domain struct {
+	vals  []uint64
+	multi bool
+}
+
+type varInfo struct {
+	v *smt.Term // the single variable, when n == 1
+	n int       // 0, 1, or 2 (= two or more)
+}
+
+func (p *path) varsOf(t *smt.Term) varInfo {
+	v, n := t.VarsOf()
+	return varInfo{v, n}
+}
+
+func (p *path) allVars(t *smt.Term, seen map[*smt.Term]bool, out *[]*smt.Term) {
+	if seen[t] {
+		return
+	}
+	seen[t] = true
+	if t.Op == smt.OpBVVar || t.Op == smt.OpBoolVar {
+		*out = append(*out, t)
+		return
+	}
+	for _, x := range []*smt.Term{t.A, t.B, t.C} {
+		if x != nil {
+			p.allVars(x, seen, out)
+		}
+	}
+}
+
+// evalAt evaluates t with variable v set to x (other variables per the model).
+func (p *path) evalAt(t, v *smt.Term, x uint64) uint64 {
+	old := p.ctx.VarVal(v)
+	p.ctx.SetVar(v, x)
+	r := p.ctx.Eval(t)
+	p.ctx.SetVar(v, old)
+	return r
+}
+
+// solve decides PC ∧ extra and returns a model when satisfiable.
+func (p *path) solve(extra ...*smt.Term) (smt.Result, map[string]uint64) {
+	if len(extra) == 1 && !p.NoFast {
+		c := extra[0]
+		if vi := p.varsOf(c); vi.n == 1 {
+			if d := p.doms[vi.v]; d != nil {
+				for _, x := range d.vals {
+					if p.evalAt(c, vi.v, x) != 0 {
+						if d.multi {
+							goto slow
+						}
+						p.fast++
+						return smt.Sat, p.ctx.ModelMap(vi.v, x)
+					}
+				}
+				p.fast++
+				return smt.Unsat, nil
+			}
+		} else if vi.n == 0 {
+			if p.ctx.Eval(c) != 0 {
+				return smt.Sat, p.ctx.ModelMap(nil, 0)
+			}
+			return smt.Unsat, nil
+		}
+	}
+slow:
+	return p.solver.Check(p.vars(), extra...)
+}
+
+// addPC records that c now holds on the path.
+func (p *path) addPC(c *smt.Term) {
+	vi := p.varsOf(c)
+	switch {
+	case vi.n == 1:
+		if d := p.doms[vi.v]; d != nil {
+			keep := make([]uint64, 0, len(d.vals))
+			for _, x := range d.vals {
+				if p.evalAt(c, vi.v, x) != 0 {
+					keep = append(keep, x)
+				}
+			}
+			d.vals = keep
+		}
+	case vi.n >= 2:
+		var vs []*smt.Term
+		p.allVars(c, map[*smt.Term]bool{}, &vs)
+		for _, v := range vs {
+			if d := p.doms[v]; d != nil {
+				d.multi = true
+			}
+		}
+	}
+	p.solver.Assert(c)
+}
+
+func (p *path) checkBudget(idx int) {
+	if idx >= p.MaxDecisions {
+		panic(engineAbort{"budget", fmt.Sprintf("more than %d symbolic decisions on one path", p.MaxDecisions)})
 	}
 }
 
@@ -111,10 +225,8 @@ func (p *path) branch(c *smt.Term) bool {
 	p.trace = append(p.trace, h)
 	p.noteFn()
 	if idx >= p.item.K {
-		if idx >= p.MaxDecisions {
-			panic(engineAbort{"budget", fmt.Sprintf("more than %d symbolic decisions on one path", p.MaxDecisions)})
-		}
-		r, model := p.solver.Check(p.vars(), other)
+		p.checkBudget(idx)
+		r, model := p.solve(other)
 		switch r {
 		case smt.Sat:
 			hs := make([]uint64, idx+1)
@@ -127,7 +239,7 @@ func (p *path) branch(c *smt.Term) bool {
 	} else if idx < len(p.item.Hashes) && p.item.Hashes[idx] != h {
 		panic(engineAbort{"nondet", fmt.Sprintf("decision %d differs on re-execution (in %v)", idx, p.curFn)})
 	}
-	p.solver.Assert(taken)
+	p.addPC(taken)
 	return v
 }
 
@@ -144,15 +256,13 @@ func (p *path) concretize(t *smt.Term) uint64 {
 	p.trace = append(p.trace, eq.H)
 	p.noteFn()
 	if idx >= p.item.K {
-		if idx >= p.MaxDecisions {
-			panic(engineAbort{"budget", fmt.Sprintf("more than %d symbolic decisions on one path", p.MaxDecisions)})
-		}
-		excl := []*smt.Term{c.Not(eq)}
+		p.checkBudget(idx)
+		excl := c.Not(eq)
 		for n := 0; ; n++ {
 			if n > 300 {
 				panic(engineAbort{"unsupported", "concretisation with more than 300 feasible values"})
 			}
-			r, model := p.solver.Check(p.vars(), excl...)
+			r, model := p.solve(excl)
 			if r == smt.UnknownRes {
 				p.res.Unknown++
 				break
@@ -169,12 +279,12 @@ func (p *path) concretize(t *smt.Term) uint64 {
 			copy(hs, p.trace[:idx])
 			hs[idx] = eq2.H
 			p.res.Children = append(p.res.Children, Item{Model: model, K: idx + 1, Hashes: hs})
-			excl = append(excl, c.Not(eq2))
+			excl = c.And(excl, c.Not(eq2))
 		}
 	} else if idx < len(p.item.Hashes) && p.item.Hashes[idx] != eq.H {
 		panic(engineAbort{"nondet", fmt.Sprintf("concretisation %d differs on re-execution", idx)})
 	}
-	p.solver.Assert(eq)
+	p.addPC(eq)
 	return v
 }
 
@@ -192,7 +302,7 @@ func (p *path) assume(c *smt.Term) {
 		if idx < p.item.K {
 			panic(engineAbort{"nondet", "model of the item falsifies an assumption of its prefix"})
 		}
-		r, model := p.solver.Check(p.vars(), c)
+		r, model := p.solve(c)
 		switch r {
 		case smt.Sat:
 			p.ctx.SetModel(model)
@@ -203,7 +313,7 @@ func (p *path) assume(c *smt.Term) {
 			panic(engineAbort{"infeasible", "assumption: solver unknown"})
 		}
 	}
-	p.solver.Assert(c)
+	p.addPC(c)
 }
 
 func (p *path) vector() []uint64 {
@@ -249,6 +359,7 @@ func (p *path) assert(c *smt.Term, id string) {
 		p.res.Violations = append(p.res.Violations, Violation{ID: id, Kind: "assert", Vector: p.vector(), Inputs: p.renderInputs()})
 		panic(engineAbort{"done", "assertion failed on every input of the path"})
 	}
+	// property assertions are always discharged by the solver itself
 	r, model := p.solver.Check(p.vars(), p.ctx.Not(c))
 	switch r {
 	case smt.Sat:
@@ -269,7 +380,7 @@ func (p *path) cover(c *smt.Term, id string) {
 	}
 	if c.Op != smt.OpTrue {
 		if p.ctx.Eval(c) == 0 {
-			r, _ := p.solver.Check(nil, c)
+			r, _ := p.solve(c)
 			if r != smt.Sat {
 				if r == smt.UnknownRes {
 					p.res.Unknown++
@@ -289,6 +400,16 @@ func (p *path) newVar(kind string, w int) *smt.Term {
 	}
 	t := p.ctx.Var(w, fmt.Sprintf("%s%d_%d", prefix, n, w))
 	p.inputs = append(p.inputs, inputRec{kind: kind, t: t})
+	switch kind {
+	case "byte":
+		d := &domain{vals: make([]uint64, 256)}
+		for i := range d.vals {
+			d.vals[i] = uint64(i)
+		}
+		p.doms[t] = d
+	case "bool":
+		p.doms[t] = &domain{vals: []uint64{0, 1}}
+	}
 	return t
 }
 
@@ -389,6 +510,7 @@ func render(v value) string {
 func (p *path) finish() {
 	p.res.Decisions = len(p.trace)
 	p.res.Steps = p.steps
+	p.res.Fast = p.fast
 	p.res.Vector = p.vector()
 	p.res.Inputs = p.renderInputs()
 	for _, o := range p.obs {
@@ -421,6 +543,13 @@ func init() {
 				return int(lo)
 			}
 			t := P.newVar("int", 64)
+			if hi-lo < 4096 {
+				d := &domain{}
+				for x := lo; x <= hi; x++ {
+					d.vals = append(d.vals, uint64(x))
+				}
+				P.doms[t] = d
+			}
 			c := P.ctx
 			P.assume(c.And(c.Cmp(smt.OpSLe, c.BV(64, uint64(lo)), t), c.Cmp(smt.OpSLe, t, c.BV(64, uint64(hi)))))
 			return symInt{t, types.Int}
